@@ -9,6 +9,7 @@ import (
 	"fmt"
 	"math/rand"
 	"os"
+	"runtime"
 	"runtime/debug"
 	"sort"
 	"strconv"
@@ -954,6 +955,7 @@ func (cl *client) doBarrier() string {
 		return "closed"
 	}
 	deadline := time.Now().Add(60 * time.Second)
+	wait := 100 * time.Millisecond
 	for {
 		select {
 		case <-cl.barrier:
@@ -963,12 +965,12 @@ func (cl *client) doBarrier() string {
 				return "panic"
 			}
 			return "closed"
-		case <-time.After(250 * time.Millisecond):
+		case <-time.After(wait):
 		}
 		// No echo yet. If the whole process is at rest (every goroutine parked where only another goroutine can wake
-		// it, no timer waits: internal/idle) the echo can never come: the server is not processing this stream's
-		// requests. That is a decided fact, not a timeout.
-		if ok, _ := idle.Wait(nil, 2*time.Second); ok {
+		// it, no timer waits: two consecutive stop-the-world snapshots of internal/idle) the echo can never come: the
+		// server is not processing this stream's requests. That is a decided fact, not a timeout.
+		if processAtRest() {
 			select {
 			case <-cl.barrier:
 				return ""
@@ -984,7 +986,23 @@ func (cl *client) doBarrier() string {
 		if time.Now().After(deadline) {
 			return "lost"
 		}
+		if wait < 500*time.Millisecond {
+			wait *= 2
+		}
 	}
+}
+
+var idleBuf = make([]byte, 1<<20)
+
+// processAtRest: two idle snapshots in a row (the caller is excluded by the snapshot itself).
+func processAtRest() bool {
+	for i := 0; i < 2; i++ {
+		if ok, _, _ := idle.Snapshot(&idleBuf); !ok {
+			return false
+		}
+		runtime.Gosched()
+	}
+	return true
 }
 
 func resourceNames(r *discovery.DiscoveryResponse) []string {
